@@ -134,6 +134,12 @@ func opsFor(widget string) []op {
 	ops = append(ops, op{Name: `type "a" (repeat)`, Kind: "insert", Key: withType(textKey("a"), vaxis.EventRepeat), Text: "a"})
 	ops = append(ops, op{Name: "BackSpace (repeat)", Kind: "delleft", Key: withType(key(vaxis.KeyBackspace, 0), vaxis.EventRepeat)})
 	ops = append(ops, op{Name: `type "a" (release)`, Kind: "noop", Key: withType(textKey("a"), vaxis.EventRelease), Text: "a"})
+	// typing while Num Lock / Caps Lock is on (the kitty protocol reports the lock state in the modifiers)
+	lock := textKey("a")
+	lock.Modifiers = vaxis.ModNumLock
+	ops = append(ops, op{Name: `type "a" (Num Lock on)`, Kind: "insert", Key: lock, Text: "a"})
+	caps := vaxis.Key{Keycode: 'a', Text: "A", Modifiers: vaxis.ModCapsLock}
+	ops = append(ops, op{Name: `type "A" (Caps Lock on)`, Kind: "insert", Key: caps, Text: "A"})
 	if widget == "textfield" {
 		// TextField has no paste buffer: a key of a bracketed paste is typed text
 		ops = append(ops, op{Name: `key "世" (inside a paste)`, Kind: "insert", Key: withType(textKey("世"), vaxis.EventPaste), Text: "世"})
@@ -451,7 +457,7 @@ func main() {
 	}
 	r.Finish(explore.Coverage{
 		States: states, Transitions: trans, Traces: trans, Evaluations: trans,
-		Rule:       "explicit-state BFS over operation sequences on vxfw/textfield.TextField and widgets/textinput.Model from 4 start contents: typing narrow, wide, combining, ZWJ and space clusters (also as auto-repeat, key-release and, for TextField, paste-tagged key events), every navigation and deletion key in both its control-key and named-key form, Enter, paste brackets with 0-2 clusters, SetContent / Reset / InsertStringAtCursor; after the last operation of every path value and cursor index are compared with an ideal editor over grapheme clusters, callbacks with the ideal editor's verdicts, and the widget is drawn at every width 0..8 (the drawn cursor column must equal the width of the text before the cursor while the text fits); state key = (value, cursor) of the ideal editor, plus the TextField's hidden grapheme count as seen through Draw",
+		Rule:       "explicit-state BFS over operation sequences on vxfw/textfield.TextField and widgets/textinput.Model from 4 start contents: typing narrow, wide, combining, ZWJ and space clusters (also as auto-repeat, key-release and, for TextField, paste-tagged key events, and with Num Lock / Caps Lock reported in the modifiers), every navigation and deletion key in both its control-key and named-key form, Enter, paste brackets with 0-2 clusters, SetContent / Reset / InsertStringAtCursor; after the last operation of every path value and cursor index are compared with an ideal editor over grapheme clusters, callbacks with the ideal editor's verdicts, and the widget is drawn at every width 0..8 (the drawn cursor column must equal the width of the text before the cursor while the text fits); state key = (value, cursor) of the ideal editor, plus the TextField's hidden grapheme count as seen through Draw",
 		Exhaustive: exhaustive,
 		Bounds:     bounds,
 		Assumptions: []string{"a word is a run of single-code-point letter/number clusters (the widget's own notion); word motions are emacs forward-word / backward-word",
